@@ -252,7 +252,7 @@ fn c11_scn(label: &str, mask: Option<&'static str>, defm: (bool, bool, bool, boo
 
 /// "No user can change another user's modes": two users whose nicknames differ only
 /// in letter case are two users (the server keys users by the exact nick).
-fn c11_case_scn() -> ChatScn {
+pub fn c11_case_scn() -> ChatScn {
     let mut s = ChatScn::new("c11-case-variant-nicks", oper_cfg(None), vec![part(0, "fanny", "fan", "fu"), part(1, "Fanny", "Fan", "gu"), part(2, "wit", "witty", "wu")], 0);
     s.prelude = vec![(2, "MODE wit +w".into())];
     for slot in 0..2 {
